@@ -6,7 +6,7 @@
 use crate::ana::sweep::{run_query, Outcome, Q};
 use crate::core::{Layer, Report, Tier, Violation};
 use ide::verif::Controller;
-use ide::{AnalysisHost, Change, FileId, FileSet, PackageGraph, SourceRoot, VfsPath};
+use ide::{AnalysisHost, Change, Dependency, FileId, FileSet, PackageGraph, SourceRoot, VfsPath};
 use rayon::prelude::*;
 use serde_json::{json, Value};
 use std::collections::BTreeSet;
@@ -91,6 +91,7 @@ const FA: FileId = FileId(0);
 const FB: FileId = FileId(1);
 const FC: FileId = FileId(2);
 const FT: FileId = FileId(3);
+const FLT: FileId = FileId(4);
 
 pub struct Scenario {
     pub name: &'static str,
@@ -100,6 +101,8 @@ pub struct Scenario {
     pub b1: &'static str,
     pub add_c: bool,
     pub warm: bool,
+    /// b.gleam lives in a second package `lib`; the change carries ONLY a package graph that adds the edge app -> lib
+    pub graph_only: bool,
 }
 
 const A0: &str = "import b\npub fn main(x) { let y = b.inc(x) helper(y, [1, 2]) }\nfn helper(n, l) { case l { [h, ..t] -> h + n [] -> n } }\npub type W { W(f: Int) }\n";
@@ -107,11 +110,35 @@ const B0: &str = "pub fn inc(n: Int) -> Int { n + 1 }\npub fn other(s) { s <> \"
 
 pub fn scenarios() -> Vec<Scenario> {
     vec![
-        Scenario { name: "body-edit-cold", a0: A0, b0: B0, a1: "import b\npub fn main(x) { let y = b.inc(x) helper(y, [3, 4]) }\nfn helper(n, l) { case l { [h, ..t] -> h + n [] -> n } }\npub type W { W(f: Int) }\n", b1: B0, add_c: false, warm: false },
-        Scenario { name: "signature-edit-cold", a0: A0, b0: B0, a1: A0, b1: "pub fn inc(n: Float) -> Float { n +. 1.0 }\npub fn other(s) { s <> \"x\" }\n", add_c: false, warm: false },
-        Scenario { name: "structural-cold", a0: A0, b0: B0, a1: A0, b1: B0, add_c: true, warm: false },
-        Scenario { name: "signature-edit-warm", a0: A0, b0: B0, a1: A0, b1: "pub fn inc(n: Float) -> Float { n +. 1.0 }\npub fn other(s) { s <> \"x\" }\n", add_c: false, warm: true },
+        Scenario { name: "body-edit-cold", a0: A0, b0: B0, a1: "import b\npub fn main(x) { let y = b.inc(x) helper(y, [3, 4]) }\nfn helper(n, l) { case l { [h, ..t] -> h + n [] -> n } }\npub type W { W(f: Int) }\n", b1: B0, add_c: false, warm: false, graph_only: false },
+        Scenario { name: "signature-edit-cold", a0: A0, b0: B0, a1: A0, b1: "pub fn inc(n: Float) -> Float { n +. 1.0 }\npub fn other(s) { s <> \"x\" }\n", add_c: false, warm: false, graph_only: false },
+        Scenario { name: "structural-cold", a0: A0, b0: B0, a1: A0, b1: B0, add_c: true, warm: false, graph_only: false },
+        Scenario { name: "signature-edit-warm", a0: A0, b0: B0, a1: A0, b1: "pub fn inc(n: Float) -> Float { n +. 1.0 }\npub fn other(s) { s <> \"x\" }\n", add_c: false, warm: true, graph_only: false },
+        Scenario { name: "graph-only-cold", a0: A0, b0: B0, a1: A0, b1: B0, add_c: false, warm: false, graph_only: true },
+        Scenario { name: "graph-only-warm", a0: A0, b0: B0, a1: A0, b1: B0, add_c: false, warm: true, graph_only: true },
     ]
+}
+
+fn graph(two_pkgs: bool, dep: bool) -> PackageGraph {
+    let mut g = PackageGraph::default();
+    let app = g.add_package("app".into(), FT, true);
+    if two_pkgs {
+        let lib = g.add_package("lib".into(), FLT, true);
+        if dep {
+            g.add_dep(app, Dependency { package: lib });
+        }
+    }
+    g
+}
+
+fn roots2() -> Vec<SourceRoot> {
+    let mut app = FileSet::default();
+    app.insert(FA, VfsPath::new("/ws/app/src/a.gleam"));
+    app.insert(FT, VfsPath::new("/ws/app/gleam.toml"));
+    let mut lib = FileSet::default();
+    lib.insert(FB, VfsPath::new("/ws/lib/src/b.gleam"));
+    lib.insert(FLT, VfsPath::new("/ws/lib/gleam.toml"));
+    vec![SourceRoot::new(app, "/ws/app".into()), SourceRoot::new(lib, "/ws/lib".into())]
 }
 
 fn roots(with_c: bool) -> Vec<SourceRoot> {
@@ -137,10 +164,13 @@ fn host_v(sc: &Scenario, version: u8) -> AnalysisHost {
     if with_c {
         ch.change_file(FC, Arc::from(C_TEXT));
     }
-    ch.set_roots(roots(with_c));
-    let mut g = PackageGraph::default();
-    g.add_package("app".into(), FT, true);
-    ch.set_package_graph(g);
+    if sc.graph_only {
+        ch.change_file(FLT, Arc::from("name = \"lib\"\n"));
+        ch.set_roots(roots2());
+    } else {
+        ch.set_roots(roots(with_c));
+    }
+    ch.set_package_graph(graph(sc.graph_only, version == 1));
     h.apply_change(ch);
     h
 }
@@ -156,6 +186,9 @@ fn delta(sc: &Scenario) -> Change {
     if sc.add_c {
         ch.change_file(FC, Arc::from(C_TEXT));
         ch.set_roots(roots(true));
+    }
+    if sc.graph_only {
+        ch.set_package_graph(graph(true, true));
     }
     ch
 }
@@ -251,6 +284,12 @@ pub fn run_schedule(sc: &Scenario, readers: &[(Q, u32, Option<u64>)], release_or
     // wait until the cancellation flag is visible, then let go of the probe snapshot
     let start = Instant::now();
     while !probe.verif_cancel_pending() {
+        // a writer that returns while the probe snapshot is alive has not set any input (salsa
+        // waits for other snapshots before it mutates): nothing will ever be cancelled; the
+        // post-change comparison below decides whether that was right
+        if writer.is_finished() {
+            break;
+        }
         if start.elapsed() > T {
             problems.push(("machinery".into(), "cancellation flag never became visible".into()));
             break;
